@@ -58,8 +58,8 @@ def main():
         hs.sort(key=repr)
         if not thorough:
             hs = rnd.sample(hs, nq)
-        elif len(hs) > 60000:
-            hs = rnd.sample(hs, 60000)
+        elif len(hs) > 15000:
+            hs = rnd.sample(hs, 15000)
         for i, h in enumerate(hs):
             cases.append({"model": model, "h": h, "form": FORMS[i % len(FORMS)], "falsy": i % 5 == 2})
     ctx.cov["behaviours_in_bound"] = totals
